@@ -1779,3 +1779,83 @@ Qed.
    here for the example used in the non-vacuity checks). *)
 Example safe_file_example : safe_file true torn_file = true.
 Proof. vm_compute. reflexivity. Qed.
+
+(* ==================================================================================== *)
+(* 13. After a torn write: the next session                                             *)
+
+Lemma mentions_app a b : mentions (a ++ b) = (mentions a + mentions b)%nat.
+Proof.
+  induction a as [|[out m ins] a IH]; [reflexivity|].
+  cbn [app mentions]. rewrite IH. lia.
+Qed.
+
+Lemma wf_ops_app_l a b : wf_ops (a ++ b) -> wf_ops a.
+Proof.
+  intros [H1 H2]. apply forallb_app_true in H1. rewrite mentions_app in H2.
+  split; [apply H1|]. unfold kMaxIds in *. lia.
+Qed.
+
+(* Except for the cuts that leave 1 to 3 bytes of a size word, a session that starts from a
+   torn log is consistent: the load after it sees the records that were complete at the cut
+   (state s1) updated by everything the session recorded, and the file is clean again. *)
+Theorem C09_torn_next_session_partial_thm ops ops2 :
+  wf_ops (ops ++ ops2) ->
+  forall k, (16 <= k <= length (apply_ops [] ops))%nat ->
+  exists off s1,
+    (16 <= off <= k)%nat /\
+    clean true (firstn off (apply_ops [] ops)) s1 /\
+    (forall j s', (off < j <= k)%nat -> ~ clean true (firstn j (apply_ops [] ops)) s') /\
+    (k = off \/ (off + 4 <= k)%nat ->
+     exists s' nr,
+       load_deps (apply_ops (firstn k (apply_ops [] ops)) ops2) = DOk s' None nr /\
+       forall o, view s' o = upd (view s1) ops2 o).
+Proof.
+  intros Hwf k Hk.
+  pose proof (wf_ops_app_l _ _ Hwf) as Hwf1.
+  destruct (apply_ops_clean ops Hwf1) as (s & [Cl (x & Hx & Kx)] & Ok & _ & Hincl & _).
+  set (file := apply_ops [] ops) in *.
+  destruct (torn_clean true file s Cl k Hk) as (off & s1 & nr1 & Hoff & Cl1 & Hmax & Hext & Hload).
+  exists off, s1. split; [exact Hoff|]. split; [exact Cl1|]. split; [exact Hmax|].
+  (* the state at the cut is well-formed, and the cut file is an oclean file *)
+  assert (Hfo : firstn off file = deps_header ++ firstn (off - 16) x).
+  { rewrite Hx, firstn_app. change (length deps_header) with 16%nat.
+    rewrite (firstn_all2 deps_header) by (change (length deps_header) with 16%nat; lia).
+    reflexivity. }
+  assert (Kx1 : okcuts true l_init (firstn (off - 16) x)).
+  { apply (okcuts_prefix true l_init _ (skipn (off - 16) x)). rewrite firstn_skipn. exact Kx. }
+  assert (Ok1 : ok_state s1).
+  { destruct Cl1 as (x1 & st1 & Hx1 & Hr1 & Hs1). rewrite Hfo in Hx1.
+    apply app_inv_head in Hx1. subst x1. rewrite <- Hs1.
+    eapply Kx1; [symmetry; apply app_nil_r|exact Hr1]. }
+  assert (OCl1 : oclean true (firstn off file) s1).
+  { split; [exact Cl1|]. exists (firstn (off - 16) x). split; [exact Hfo|exact Kx1]. }
+  destruct Hwf as [Hwfb Hcnt].
+  set (U := flat_map op_paths (ops ++ ops2)).
+  assert (HU : nlen U < kMaxIds) by (unfold U; rewrite mentions_paths; exact Hcnt).
+  assert (Hin1 : incl (d_paths s1) U).
+  { destruct Hext as [[np Hp] _]. intros p Hp1. unfold U. rewrite flat_map_app.
+    apply in_or_app. left. apply Hincl. rewrite Hp. apply in_or_app. left. exact Hp1. }
+  assert (HU2 : Forall (fun op => incl (op_paths op) U) ops2).
+  { pose proof (op_paths_incl (ops ++ ops2)) as HF. apply Forall_app in HF. apply HF. }
+  apply forallb_app_true in Hwfb. destruct Hwfb as [_ Hwf2].
+  intros [Heq|Hge].
+  - (* cut on a record boundary *)
+    subst k.
+    destruct (session_spec true (fun _ => true) U _ s1 ops2 HU OCl1 Ok1 Hin1 HU2 Hwf2)
+      as (s' & nr & _ & OCl' & _ & _ & V').
+    destruct (clean_load _ _ _ (proj1 OCl')) as [nr' Hl'].
+    exists s', nr'. split; [exact Hl'|].
+    intros o. rewrite V'. unfold upd. destruct (abstract_ops ops2 o); [reflexivity|].
+    destruct nr; reflexivity.
+  - (* at least the size word of the torn record survived: Load truncates *)
+    replace (k - off <? 4)%nat with false in Hload by (symmetry; apply Nat.ltb_ge; lia).
+    destruct (run_ops_spec true U HU ops2 s1 Ok1 Hin1 HU2 Hwf2)
+      as (s' & w & E & _ & _ & W & _ & V').
+    assert (Hsess : apply_ops (firstn k file) ops2 = firstn off file ++ w).
+    { unfold apply_ops, session, session_gen. fold (load_deps (firstn k file)).
+      unfold load_deps at 1. rewrite Hload, E.
+      rewrite firstn_firstn. replace (Nat.min off k) with off by lia. reflexivity. }
+    rewrite Hsess.
+    destruct (clean_load _ _ _ (clean_append _ _ _ _ _ Cl1 W)) as [nr' Hl'].
+    exists s', nr'. split; [exact Hl'|exact V'].
+Qed.
